@@ -9,6 +9,45 @@ PROP = "C01"
 KINDS = ("post", "pre", "assert")  # a firing NUNAVUT_ASSERT aborts the codec: part of the functional contract when asserts are generated
 
 
+def cpp_bounded(run, prop, direction, args):
+    """C++ leg: NOT under contract.  Bounded stand-in (never counted as proved): the generated C++ codecs of every corpus
+    type, built with ASan/UBSan, against the independent reference codec of contracts/pp_ref.py on boundary and
+    pseudo-random inputs."""
+    import concurrent.futures
+    import pathlib
+    import tempfile
+    import pydsdl
+    from contracts import pp_ref
+    from vk import render
+    stds = ["c++14"] + (["c++17", "c++20"] if args.tier == "thorough" else [])
+    n_cases = 60 if args.tier != "thorough" else 200
+    for std in stds:
+        work = pathlib.Path(tempfile.mkdtemp(prefix="vk_cpp_"))
+        try:
+            render.render_types("cpp", PP.CORPUS / "vk", work, {"std": std})
+            types = PP.flatten_types(pydsdl.read_namespace(str(PP.CORPUS / "vk"), []))
+            jobs = [(t, d) for t in sorted(types, key=str) for d in direction]
+            with concurrent.futures.ThreadPoolExecutor(max_workers=12) as ex:
+                results = list(ex.map(lambda j: (j, pp_ref.witness_cpp(j[0], work, std, j[1], n_cases)), jobs))
+            total = 0
+            bad = []
+            for (t, d), (w, n) in results:
+                total += n
+                if w is None:
+                    continue
+                if "harness_error" in w:
+                    run.undecide(f"[{std}] C++ harness for {t} ({d}): {w['harness_error'][:300]}")
+                    continue
+                bad.append((t, d, w))
+            run.add_bounded(f"native [{std}]: generated C++ {'/'.join(direction)} codecs == reference codec (ASan/UBSan)", f"{len(types)} corpus types x {n_cases} inputs per direction (boundary + pseudo-random, exactly-sized heap buffers)",
+                            total, not bad, "" if not bad else f"{bad[0][0]} {bad[0][1]}: {str(bad[0][2]['input'])[:200]}: {bad[0][2]['why'][:300]}")
+            for t, d, w in bad:
+                run.fail(report.Failure(f"native[{std}]:{t}#{'serialize' if d == 'ser' else 'deserialize'}-c++-agrees-with-the-specification", "post",
+                                        f"generated C++ ({std}) for {t}: {str(w['input'])[:300]}: {w['why'][:500]}", {"witness": w}, True))
+        finally:
+            shutil.rmtree(work, ignore_errors=True)
+
+
 def main(prop=PROP, direction=("ser",), kinds=KINDS, title="serializers", extra=None):
     args = parse_args(prop)
     run = report.Run(prop, "proof", f"./check {prop}", args.tier)
@@ -28,6 +67,7 @@ def main(prop=PROP, direction=("ser",), kinds=KINDS, title="serializers", extra=
         run.add_results(res)
         PP.report_failures(run, res, label)
         shutil.rmtree(PP._STATE.get("workdir", "/nonexistent"), ignore_errors=True)
+    cpp_bounded(run, prop, direction, args)
     PP.template_error_guards(run, tuple(t for d, t in (("ser", "serialization.j2"), ("des", "deserialization.j2")) if d in direction))
     if extra is not None:
         extra(run)
@@ -37,7 +77,7 @@ def main(prop=PROP, direction=("ser",), kinds=KINDS, title="serializers", extra=
               "contracts of the support library functions (proved separately under C14)")
     run.assume("per program: proved for all values/contents of each corpus program; the programs (DSDL types) are a fixed corpus written to cover every template branch it can (corpus/vk)",
                "struct members are bound to DSDL fields by position; C bool objects hold 0 or 1; union members are disjoint objects",
-               "the C++ and Python targets are not under contract here")
+               "the C++ and Python targets are not under contract here; the C++ codecs are covered by a bounded differential stand-in only")
     run.explanation = (f"generated C {title} of {len(run.notes.get('programs', {}).get(variants[0][0], []))} corpus types, every array-length/union-tag shape and null-argument variant, "
                        "executed symbolically against contracts derived from the wire specification")
     return run.finish()
